@@ -7,7 +7,7 @@ instants), and to-date D vs the history truncated at D.
 from __future__ import annotations
 
 import copy
-from datetime import date, timedelta, timezone
+from datetime import date, datetime, timedelta, timezone
 from decimal import Decimal
 from typing import Any, Dict, List, Optional, Tuple
 
@@ -25,7 +25,8 @@ RULE = (
     "LOFO, a newer one for LIFO, dated 1 us / 1 day after T, and a disposal that would exhaust earlier lots). Relation: all "
     "fraction records (event, lot, amount, proceeds, cost, gain, long/short) of events <= T and the yearly lines of years "
     "closed before the continuation are identical in both runs; second form: run with to-date D == run on the history "
-    "truncated at D (fractions, yearly lines, balances, average price, k/n labels). Non-trivial = a cut with >= 1 disposal "
+    "truncated at D (fractions, yearly lines, balances, average price, k/n labels), also with rows stamped exactly 00:00:00.000000 "
+    "on the day after D (date-only exports). Non-trivial = a cut with >= 1 disposal "
     "fraction before T and >= 1 lot after T; distinct = hash of (history, schedule, cut)"
 )
 ASSUMPTIONS = [
@@ -33,8 +34,8 @@ ASSUMPTIONS = [
     "to-dates are only used where own-date order and instant order agree across the cut (KF1 region excluded)",
 ]
 SETTINGS: Dict[str, Dict[str, Any]] = {
-    "quick": {"cases": 500, "cli_cases": 48, "budget_s": 50, "minimums": {"cuts_checked": 3000, "nontrivial": 1500, "todate_pairs": 500, "cli_pairs": 3}},
-    "thorough": {"cases": 30000, "cli_cases": 150, "budget_s": 420, "minimums": {"cuts_checked": 150000, "nontrivial": 80000, "todate_pairs": 25000, "cli_pairs": 75}},
+    "quick": {"cases": 500, "cli_cases": 48, "budget_s": 50, "minimums": {"cuts_checked": 3000, "nontrivial": 1500, "todate_pairs": 500, "cli_pairs": 3, "todate_pairs_with_a_row_at_the_midnight_after_the_to_date": 150}},
+    "thorough": {"cases": 30000, "cli_cases": 150, "budget_s": 420, "minimums": {"cuts_checked": 150000, "nontrivial": 80000, "todate_pairs": 25000, "cli_pairs": 75, "todate_pairs_with_a_row_at_the_midnight_after_the_to_date": 8000}},
 }
 PROFILES = [
     Profile(max_events=14, min_events=5),
@@ -64,6 +65,20 @@ def tempting_extras(prefix: Dict[str, Any], cut: Any, rng: Any) -> List[Dict[str
         amount = Decimal(final.numerator) / Decimal(final.denominator)
         rows.append({"t": "OUT", "row": base_row + 10, "ts": fmt_ts(cut + timedelta(days=2), 0), "ex": account[0], "ho": account[1], "type": rng.choice(OUT_TYPES[:3]), "spot": "77", "cout": dstr(amount), "cfee": "0", "cout_wf": None, "fout_nf": None, "ffee": None, "uid": "X-OUT-0", "notes": ""})
     return rows
+
+
+def midnight_rows(hist: Dict[str, Any], day: date, rng: Any) -> Dict[str, Any]:
+    """The history plus an income row (and sometimes a sale of part of it) at exactly midnight starting the day after `day`,
+    written in the offset of the history's last row on or before that day."""
+    before = [r for r in hist["rows"] if parse_ts(r["ts"]).date() <= day]
+    offset = int(parse_ts(max(before, key=lambda r: parse_ts(r["ts"]))["ts"]).utcoffset().total_seconds() // 60) if before else 0
+    account = (hist["exchanges"][0], hist["holders"][0])
+    instant = datetime.combine(day + timedelta(days=1), datetime.min.time(), tzinfo=timezone(timedelta(minutes=offset))).astimezone(timezone.utc)
+    base_row = max(r["row"] for r in hist["rows"]) + 200
+    rows = [{"t": "IN", "row": base_row, "ts": fmt_ts(instant, offset), "ex": account[0], "ho": account[1], "type": rng.choice(("INTEREST", "STAKING", "BUY")), "spot": dstr(Decimal(rng.randint(50, 5000))), "cin": "2", "cfee": None, "fin_nf": None, "fin_wf": None, "ffee": None, "uid": "M-IN-0", "notes": ""}]
+    if rng.random() < 0.5:
+        rows.append({"t": "OUT", "row": base_row + 1, "ts": fmt_ts(instant, offset), "ex": account[0], "ho": account[1], "type": rng.choice(OUT_TYPES[:3]), "spot": "91", "cout": "0.5", "cfee": "0", "cout_wf": None, "fout_nf": None, "ffee": None, "uid": "M-OUT-0", "notes": ""})
+    return dict(hist, rows=[dict(r) for r in hist["rows"]] + rows)
 
 
 def _keys(trace: List[Any], model: Model, cut: Any) -> List[Tuple[Any, ...]]:
@@ -217,8 +232,16 @@ def run_shard(ctx: Any) -> None:
                 scheds.append(schedule(rng, years[0], years[-1]))
             for sched in scheds:
                 _observe_prefixes(ctx, ip, hist, sched, rng)
-                for d in [d for d in candidate_days(rng, hist, 5) if clean_cut(hist, d)][:2]:
+                clean_days = [d for d in candidate_days(rng, hist, 5) if clean_cut(hist, d)]
+                for d in clean_days[:2]:
                     _observe_todate(ctx, ip, hist, sched, d.isoformat())
+                if clean_days:
+                    # date-only exports: transactions stamped exactly 00:00:00.000000 on the day after the to-date are outside
+                    d = clean_days[-1]
+                    with_midnight = midnight_rows(hist, d, rng)
+                    if clean_cut(with_midnight, d) and is_valid(Model(with_midnight)):
+                        ctx.count("todate_pairs_with_a_row_at_the_midnight_after_the_to_date")
+                        _observe_todate(ctx, ip, with_midnight, sched, d.isoformat())
         else:
             ctx.count("generated_invalid")
         index += ctx.nshards
